@@ -62,6 +62,27 @@ Definition exponent_part (l : bytes) : option Z :=
       else None
   end.
 
+(* DecimalLiteral *)
+Definition mv_dec (src : bytes) : option (Z * Z) :=
+  let '(ip, r) := take_digits src in
+  if negb (int_part_ok ip) then None else
+  match r with
+  | 46 :: r1 =>
+      let '(fp, r2) := take_digits r1 in
+      match ip, fp with
+      | [], [] => None
+      | _, _ =>
+          match exponent_part r2 with
+          | Some e => Some (digits_value (ip ++ fp) 0, e - Z.of_nat (length fp))
+          | None => None
+          end
+      end
+  | _ => match ip with
+         | [] => None
+         | _ => match exponent_part r with Some e => Some (digits_value ip 0, e) | None => None end
+         end
+  end.
+
 Definition mv (src : bytes) : option (Z * Z) :=
   match src with
   | 48 :: x :: h =>
@@ -70,38 +91,8 @@ Definition mv (src : bytes) : option (Z * Z) :=
         | [] => None
         | _ => match hex_value h 0 with Some v => Some (v, 0) | None => None end
         end
-      else
-        (* fall through to decimal below *)
-        let '(ip, r) := take_digits src in
-        if negb (int_part_ok ip) then None else
-        match r with
-        | 46 :: r1 =>
-            let '(fp, r2) := take_digits r1 in
-            match exponent_part r2 with
-            | Some e => Some (digits_value (ip ++ fp) 0, e - Z.of_nat (length fp))
-            | None => None
-            end
-        | _ => match exponent_part r with Some e => Some (digits_value ip 0, e) | None => None end
-        end
-  | _ =>
-      let '(ip, r) := take_digits src in
-      if negb (int_part_ok ip) then None else
-      match r with
-      | 46 :: r1 =>
-          let '(fp, r2) := take_digits r1 in
-          match ip, fp with
-          | [], [] => None
-          | _, _ =>
-              match exponent_part r2 with
-              | Some e => Some (digits_value (ip ++ fp) 0, e - Z.of_nat (length fp))
-              | None => None
-              end
-          end
-      | _ => match ip with
-             | [] => None
-             | _ => match exponent_part r with Some e => Some (digits_value ip 0, e) | None => None end
-             end
-      end
+      else mv_dec src
+  | _ => mv_dec src
   end.
 
 (* m1 * 10^e1 = m2 * 10^e2 over the rationals *)
